@@ -899,6 +899,9 @@ def pretty(defn):
 
 
 def gen_atoms(problems):
+    """per atomic-operator file: atomic_op, is_valid, acts_on, dgr, new. A function outside the subset is reported
+    (UNSUPPORTED <file>: <file>::<fn>: ..) and replaced by a placeholder with its signature, so that the definitions
+    and equalities that do not concern it still build"""
     out = []
     for fname, variant, ctor in ATOMS:
         path = os.path.join(REPO, "src", "operator", "atomic", fname + ".rs")
@@ -913,10 +916,27 @@ def gen_atoms(problems):
                 if t not in TYMAP:
                     raise Unsupported(f"field type {t}")
                 ftys.append((n, TYMAP[t]))
-            sf = {n: ("s_" + n, t) for n, t in ftys}
-            binder = "".join(f" (s_{n} : {LEANTY[t]})" for n, t in ftys)
-            mk = lambda fn: Emitter(f"{fname}.rs::{fn}", sf, consts, "Atom." + ctor, ftys)
-            # atomic_op
+        except (Unsupported, OSError) as ex:
+            problems.append(f"{fname}.rs: {fname}.rs::struct: {ex}")
+            continue
+        sf = {n: ("s_" + n, t) for n, t in ftys}
+        binder = "".join(f" (s_{n} : {LEANTY[t]})" for n, t in ftys)
+        mk = lambda fn: Emitter(f"{fname}.rs::{fn}", sf, consts, "Atom." + ctor, ftys)
+
+        def attempt(fn, sig, stub, build):
+            try:
+                v = build()
+            except (Unsupported, OSError, TypeError, IndexError, KeyError) as ex:
+                msg = str(ex)
+                if not msg.startswith(f"{fname}.rs::{fn}"):
+                    msg = f"{fname}.rs::{fn}: {msg}"
+                problems.append(f"{fname}.rs: {msg}")
+                out.append(f"/-- `{fname}.rs`: `{fn}` — NOT TRANSLATED (outside the subset): placeholder -/\n{sig} :=\n  {stub}\n")
+                return
+            out.append(f"/-- `{fname}.rs`: `{fn}` -/\n{sig} :=\n  {v}\n")
+
+        # atomic_op
+        def b_op():
             f = find_fn(toks, "atomic_op")
             if f is None:
                 raise Unsupported("atomic_op not found")
@@ -925,30 +945,36 @@ def gen_atoms(problems):
             if [p[2] for p in pn] != ["&[C]", "N"]:
                 raise Unsupported(f"atomic_op signature {pn}")
             env = {pn[0][0]: ("ψ", "slice"), pn[1][0]: ("idx", "N")}
-            if pn[1][0] != "idx":
-                env[pn[1][0]] = ("idx", "N")
             v, t = mk("atomic_op").block(body, env, "C")
             if t != "C":
                 raise Unsupported("atomic_op does not return C")
-            out.append(f"/-- `{fname}.rs`: `AtomicOp::atomic_op` -/\ndef {fname}_op{binder} (ψ : State R) (idx : Nat) : Cx R :=\n  {v}\n")
-            # is_valid (trait default: true)
+            return v
+        attempt("atomic_op", f"def {fname}_op{binder} (ψ : State R) (idx : Nat) : Cx R", "ψ idx", b_op)
+
+        # is_valid (trait default: true)
+        def b_valid():
             f = find_fn(toks, "is_valid")
             if f is None:
-                v = "true"
-            else:
-                v, t = mk("is_valid").block(f[2], {}, "bool")
-                if t != "bool":
-                    raise Unsupported("is_valid type")
-            out.append(f"/-- `{fname}.rs`: `AtomicOp::is_valid` -/\ndef {fname}_isValid{binder} : Bool :=\n  {v}\n")
-            # acts_on
+                return "true"
+            v, t = mk("is_valid").block(f[2], {}, "bool")
+            if t != "bool":
+                raise Unsupported("is_valid type")
+            return v
+        attempt("is_valid", f"def {fname}_isValid{binder} : Bool", "true", b_valid)
+
+        # acts_on
+        def b_acts():
             f = find_fn(toks, "acts_on")
             if f is None:
                 raise Unsupported("acts_on not found")
             v, t = mk("acts_on").block(f[2], {}, "N")
             if not is_int(t):
                 raise Unsupported("acts_on type")
-            out.append(f"/-- `{fname}.rs`: `AtomicOp::acts_on` -/\ndef {fname}_actsOn{binder} : Nat :=\n  {v}\n")
-            # dgr
+            return v
+        attempt("acts_on", f"def {fname}_actsOn{binder} : Nat", "0", b_acts)
+
+        # dgr
+        def b_dgr():
             f = find_fn(toks, "dgr")
             if f is None:
                 raise Unsupported("dgr not found")
@@ -957,8 +983,11 @@ def gen_atoms(problems):
             em_ex = em.block(f[2], env)
             if em_ex[1] != "Self" or em.variant != variant:
                 raise Unsupported(f"dgr returns variant {em.variant}, expected {variant}")
-            out.append(f"/-- `{fname}.rs`: `AtomicOp::dgr` -/\ndef {fname}_dgr{binder} : Atom R :=\n  {em_ex[0]}\n")
-            # this
+            return em_ex[0]
+        attempt("dgr", f"def {fname}_dgr{binder} : Atom R", "Atom.id", b_dgr)
+
+        # this
+        try:
             f = find_fn(toks, "this")
             em = mk("this"); em.variant = None
             if f is not None:
@@ -966,23 +995,33 @@ def gen_atoms(problems):
                 em_ex = em.block(f[2], env)
                 if em.variant != variant:
                     raise Unsupported(f"this returns variant {em.variant}")
-            # new
+        except (Unsupported, TypeError) as ex:
+            problems.append(f"{fname}.rs: {fname}.rs::this: {ex}")
+
+        # new
+        f = None
+        try:
             f = find_fn(toks, "new")
-            if f is not None:
-                params, ret, body = f
-                env, b2 = {}, ""
-                for n, mut, ty in params:
-                    if ty not in TYMAP:
-                        raise Unsupported(f"new parameter type {ty}")
-                    env[n] = (lean_name(n), TYMAP[ty])
-                    b2 += f" ({lean_name(n)} : {LEANTY[TYMAP[ty]]})"
-                em = Emitter(f"{fname}.rs::new", {}, consts, "Atom." + ctor, ftys)
-                v, t = em.block(body, env)
-                if t != "Self":
-                    raise Unsupported("new does not return Self")
-                out.append(f"/-- `{fname}.rs`: `Op::new` -/\ndef {fname}_new{b2} : Atom R :=\n  {v}\n")
-        except (Unsupported, OSError) as ex:
-            problems.append(f"{fname}.rs: {ex}")
+        except Unsupported as ex:
+            problems.append(f"{fname}.rs: {fname}.rs::new: {ex}")
+        if f is not None:
+            params, ret, body = f
+            b2, env, okp = "", {}, True
+            for n, mut, ty in params:
+                if ty not in TYMAP:
+                    problems.append(f"{fname}.rs: {fname}.rs::new: parameter type {ty}")
+                    okp = False
+                    break
+                env[n] = (lean_name(n), TYMAP[ty])
+                b2 += f" ({lean_name(n)} : {LEANTY[TYMAP[ty]]})"
+            if okp:
+                def b_new():
+                    em = Emitter(f"{fname}.rs::new", {}, consts, "Atom." + ctor, ftys)
+                    v, t = em.block(body, dict(env))
+                    if t != "Self":
+                        raise Unsupported("new does not return Self")
+                    return v
+                attempt("new", f"def {fname}_new{b2} : Atom R", "Atom.id", b_new)
     return out
 
 
@@ -1123,43 +1162,57 @@ def gen_creg(problems):
             raise Unsupported(f"fields of class::Reg are {ftys}")
         out.append("structure CRegG where\n  value : Nat\n  q_num : Nat\n  q_mask : Nat\nderiving Repr, DecidableEq\n")
         for fn in CREG_FNS:
-            f = find_fn(toks, fn)
-            if f is None:
-                raise Unsupported(f"fn {fn} not found")
-            params, ret, body = f
-            em = Emitter(f"class.rs::{fn}", {}, {}, "CRegG.mk", ftys)
-            env, binder = {}, ""
-            has_self = False
-            for n, mut, ty in params:
-                if n == "self":
-                    has_self = True
-                    binder += " (self : CRegG)"
-                    em.self_fields = {fn_: (f"self.{fn_}", t) for fn_, t in ftys}
-                    continue
-                if ty in ("Self",):
-                    binder += f" ({n} : CRegG)"
-                    env[n] = (n, "CReg")
-                    continue
-                if ty not in TYMAP:
-                    raise Unsupported(f"{fn}: parameter type {ty}")
-                env[n] = (lean_name(n), TYMAP[ty])
-                binder += f" ({lean_name(n)} : {LEANTY[TYMAP[ty]]})"
-            if ret is None:
-                # &mut self method: the new value of self
-                lets = em.stmts(body[1], env)
-                if body[2] is not None:
-                    if body[2][0] == "if":
-                        lets += em.if_stmt(body[2], env)
-                    else:
-                        raise Unsupported(f"{fn}: unit function with a tail expression")
-                v = wrap(lets, em.self_value())
-                rty = "CRegG"
-            else:
-                v, t = em.block(body, env, TYMAP.get(ret))
-                rty = {"Self": "CRegG", "N": "Nat", "bool": "Bool"}.get(t)
-                if rty is None:
-                    raise Unsupported(f"{fn}: return type {t}")
-            out.append(f"/-- `class.rs`: `Reg::{fn}` -/\ndef creg_{fn}{binder} : {rty} :=\n  {v}\n")
+            binder, rty = "", "CRegG"
+            try:
+                f = find_fn(toks, fn)
+                if f is None:
+                    raise Unsupported(f"fn {fn} not found")
+                params, ret, body = f
+                em = Emitter(f"class.rs::{fn}", {}, {}, "CRegG.mk", ftys)
+                env = {}
+                for n, mut, ty in params:
+                    if n == "self":
+                        binder += " (self : CRegG)"
+                        em.self_fields = {fn_: (f"self.{fn_}", t) for fn_, t in ftys}
+                        continue
+                    if ty in ("Self",):
+                        binder += f" ({n} : CRegG)"
+                        env[n] = (n, "CReg")
+                        continue
+                    if ty not in TYMAP:
+                        raise Unsupported(f"{fn}: parameter type {ty}")
+                    env[n] = (lean_name(n), TYMAP[ty])
+                    binder += f" ({lean_name(n)} : {LEANTY[TYMAP[ty]]})"
+                rty = "CRegG" if ret is None else {"Self": "CRegG", "N": "Nat", "bool": "Bool"}.get(TYMAP.get(ret, ret), None)
+                if ret is None:
+                    # &mut self method: the new value of self
+                    lets = em.stmts(body[1], env)
+                    if body[2] is not None:
+                        if body[2][0] == "if":
+                            lets += em.if_stmt(body[2], env)
+                        else:
+                            raise Unsupported(f"{fn}: unit function with a tail expression")
+                    v = wrap(lets, em.self_value())
+                    rty = "CRegG"
+                else:
+                    v, t = em.block(body, env, TYMAP.get(ret))
+                    rty = {"Self": "CRegG", "N": "Nat", "bool": "Bool"}.get(t)
+                    if rty is None:
+                        raise Unsupported(f"{fn}: return type {t}")
+                out.append(f"/-- `class.rs`: `Reg::{fn}` -/\ndef creg_{fn}{binder} : {rty} :=\n  {v}\n")
+            except (Unsupported, TypeError, KeyError, IndexError) as ex:
+                msg = str(ex)
+                if not msg.startswith(f"class.rs::{fn}"):
+                    msg = f"class.rs::{fn}: {msg}"
+                problems.append(f"class.rs: {msg}")
+                # placeholder with the signature of the last known shape of the function
+                sigs = {"mask_of": (" (q_num : Nat)", "Nat", "0"), "with_state": (" (q_num : Nat) (state : Nat)", "CRegG", "CRegG.mk 0 0 0"),
+                        "set_num": (" (self : CRegG) (q_num : Nat)", "CRegG", "self"), "reset": (" (self : CRegG) (i_state : Nat)", "CRegG", "self"),
+                        "set": (" (self : CRegG) (bit : Bool) (mask : Nat)", "CRegG", "self"), "xor": (" (self : CRegG) (bit : Bool) (mask : Nat)", "CRegG", "self"),
+                        "tensor_prod": (" (self : CRegG) (other : CRegG)", "CRegG", "self"), "get": (" (self : CRegG)", "Nat", "0"),
+                        "num": (" (self : CRegG)", "Nat", "0")}
+                b, r, v = sigs[fn]
+                out.append(f"/-- `class.rs`: `Reg::{fn}` — NOT TRANSLATED (outside the subset): placeholder -/\ndef creg_{fn}{b} : {r} :=\n  {v}\n")
     except (Unsupported, OSError, TypeError, KeyError) as ex:
         problems.append(f"class.rs: {ex!r}")
     return out
